@@ -93,8 +93,15 @@ pub fn query<A: HC>(q: &str, t: &mut Toks) -> R<String> {
                 },
                 None => "-".to_string(),
             };
+            let conc = match sym {
+                Some(s) => match catch_unwind(move || A::sym_concrete(s, b)) {
+                    Ok(f) => f,
+                    Err(_) => "panic".to_string(),
+                },
+                None => "-".to_string(),
+            };
             format!(
-                "{} {} {} {} {} {} {} {} {} {forms}",
+                "{} {} {} {} {} {} {} {} {} {forms} {conc}",
                 A::BITS,
                 osym::<A>(move || A::try_from_bits(b)),
                 osym::<A>(move || Some(A::unsafe_from_bits(b))),
